@@ -15,7 +15,8 @@
     the text carried by the LATEST one converts and validates, `x` holds exactly that value.  At the event
     "response arrived" this is the property's "once the subscribe call has returned, every variable carried by
     any early NOTIFY holds the value from the latest NOTIFY that carried it".
-  Domain (`evInScope`): one subscribe call per service, distinct SIDs, granted TIMEOUT inside C09's domain,
+  Domain (`evInScope`): one subscribe call at a time per service and none after a grant (a call that failed
+  may be repeated), distinct SIDs, granted TIMEOUT inside C09's domain,
   well-formed property sets (`C10.bodyWF`).  Judging stops at the first event outside the domain.
   Import-free (linked into the driver).
 -/
@@ -47,7 +48,7 @@ deriving Repr
 def grantedSid (js : JS) (i : Nat) : Option Str := (js.granted.find? (·.1 == i)).map (·.2)
 
 def evInScope (js : JS) : Ev → Bool
-  | .start svc _ => !js.started.contains svc
+  | .start svc _ => !js.pend.contains svc && (grantedSid js svc).isNone
   | .notify n => !hdrsOk n.hdrs || (!n.malformed && bodyWF n.body)
   | .respond svc r =>
     !js.pend.contains svc ||
